@@ -27,3 +27,9 @@ Qed.
 
 Lemma sum_range_INR : forall f a b, sum_range f (INR a) (INR b) = sum_from f a (b - a).
 Proof. intros. unfold sum_range. now rewrite !R2nat_INR. Qed.
+
+(* (-1)**k for an integer-valued real k (Python: (-1)**n with n a loop index or 2*n+1) *)
+Definition altsign (x : R) : R := (-1) ^ (R2nat x).
+
+Lemma altsign_INR : forall n, altsign (INR n) = (-1) ^ n.
+Proof. intros n. unfold altsign. now rewrite R2nat_INR. Qed.
